@@ -77,6 +77,8 @@ def run(ctx):
         ctx.ob('C14-DBKEY.every-declared-key-becomes-a-unique-index', gm, adds[0].ast if adds else L.ast.iter, ok,
                '' if ok else 'an iteration over the declared keys can finish without table.add_index(..., is_unique=%s.is_unique) for a key that is not the primary key: the database gets no '
                'UNIQUE constraint for it, so a duplicate written from a session that has not loaded the clashing row is committed silently' % iv, node=L.ast)
+    from . import C26 as _C26
+    _C26.ddl_rules(ctx, 'C14-DBKEY', which=('unique',))
 
 
 MUTANTS = [
